@@ -33,6 +33,12 @@ ShownText(old, new) ==
 
 NoneLargeCases  == [kind : {"nonelarge"}, n : (MaxN + 1)..MaxNLarge, c : ConfGrid]
 CmpLargeCases   == [kind : {"cmplarge"}, n1 : LargeSizes, n2 : LargeSizes, tied : BOOLEAN]
+\* normal model, every sample size of the statement's quantifier ("1 to 70 values") x level: the
+\* contract "the mean with its t interval" (centre = mean; the ends are the mean -+ h with
+\* P(|T| <= h sqrt(n) / s) = level for Student's t with n-1 degrees of freedom) does not depend
+\* on the size; the harness draws the samples and evaluates the contract in exact rationals and
+\* by quadrature of the t density
+NormalLargeCases == [kind : {"normallarge"}, n : 1..MaxNLarge, c : ConfGrid]
 RECURSIVE OrdersOf(_)
 OrdersOf(len) == IF len = 0 THEN {<<>>} ELSE {Append(s, k) : s \in OrdersOf(len - 1), k \in CacheKeys}
 CacheOrderCases == {[kind |-> "cacheorder", calls |-> s] : s \in UNION {OrdersOf(k) : k \in 1..OrderLen}}
@@ -41,6 +47,7 @@ GInit ==
   /\ \/ inp \in NoneCases \/ inp \in SampleCases \/ inp \in CmpCases
      \/ inp \in DeltaCases \/ inp \in RangeCases
      \/ inp \in NoneLargeCases \/ inp \in CmpLargeCases \/ inp \in CacheOrderCases
+     \/ inp \in NormalLargeCases
      \/ inp = [kind |-> "grid"]
   /\ cache = <<>> /\ pc = [p \in Procs |-> "idle"] /\ arg = [p \in Procs |-> <<0, <<0, 1>>>>]
   /\ ans = [p \in Procs |-> None] /\ calls = 0
@@ -77,6 +84,8 @@ CaseOf(i) ==
                      ELSE <<>>]
     [] i.kind = "cmplarge" ->
          [tag |-> "case", kind |-> "cmplarge", n1 |-> i.n1, n2 |-> i.n2, tied |-> i.tied]
+    [] i.kind = "normallarge" ->
+         [tag |-> "case", kind |-> "normallarge", n |-> i.n, c |-> i.c, dof |-> i.n - 1]
     [] i.kind = "delta" ->
          LET rows == DeltaRows(i.P, i.a, i.old, i.new) IN
          [tag |-> "case", kind |-> "delta", P |-> i.P, alpha |-> i.a, old |-> i.old, new |-> i.new,
